@@ -255,7 +255,8 @@ ScopeExit(q, t, x) ==
                      reg |-> IF x.e = {} THEN Val ELSE [x EXCEPT !.a = FALSE],
                      caught |-> TRUE]
                ELSE [q |-> q3, reg |-> x, caught |-> FALSE]
-     ELSE LET q3 == IF sc.pend > 0 /\ p # NOSCOPE
+     ELSE \* the count is handed to the parent only if that scope is hosted by the same task (fix F11)
+          LET q3 == IF sc.pend > 0 /\ p # NOSCOPE /\ p[1] = t
                     THEN SetSc(q2, p, [Sc(q2, p) EXCEPT !.pend = @ + sc.pend])
                     ELSE q2
           IN [q |-> q3, reg |-> x, caught |-> FALSE]
@@ -304,10 +305,11 @@ CicStep(q, t) ==
   ELSE IF IsExc(Reg(q, t)) THEN Raise(q, t, Reg(q, t)) ELSE SuspendBare(q, t, "spin")
 
 \* cancel_shielded_checkpoint: "with CancelScope(shield=True): await sleep(0)"
+CscTag == [n |-> 0, kind |-> "csc", cl |-> 0]
 CscEnabled(q, t) == At(q, t, "csc", "start") \/ At(q, t, "csc", "back")
 CscStep(q, t) ==
   IF Top(q, t).pc = "start"
-  THEN SuspendBare(ScopeEnter(q, t, TRUE, INF, FALSE, "csc"), t, "back")
+  THEN SuspendBare(ScopeEnter(q, t, TRUE, INF, FALSE, CscTag), t, "back")
   ELSE LET r == ScopeExit(q, t, Reg(q, t)) IN
        IF IsExc(r.reg) THEN Raise(r.q, t, r.reg) ELSE Ret(r.q, t)
 
